@@ -1677,3 +1677,159 @@ theorem exactLog_runFrom {S : Scheds} (h : List Label) :
       have hS1 : Sync s1 := sync_step hS (by intro t ht; subst ht; exact hp.1) hl
       exact ih hS1 (exactLog_step hS hE hl) hp.2 hr
 end Kit.CronSched
+
+namespace Kit.CronSched
+
+theorem wakeLoop_keeps {S : Scheds} {v : Nat} {e : Entry} :
+    ∀ {l : List Entry}, e ∈ l → ¬(e.next ≠ 0 ∧ e.next ≤ v) → e ∈ (wakeLoop S v l).1 := by
+  intro l
+  induction l with
+  | nil => intro h; cases h
+  | cons x xs ih =>
+    intro he hnd
+    simp only [wakeLoop]
+    split
+    · exact he
+    · rename_i hx
+      rcases List.mem_cons.1 he with rfl | he'
+      · exact absurd ⟨by omega, by omega⟩ hnd
+      · exact List.mem_cons_of_mem _ (ih he' hnd)
+
+theorem filter_launch_of_nodup (v : Nat) {e : Entry} :
+    ∀ {l : List Entry}, (l.map (·.id)).Nodup → e ∈ l →
+      (l.map (launchJob v)).filter (fun j => j.eid == e.id) = [launchJob v e] := by
+  intro l
+  induction l with
+  | nil => intro _ h; cases h
+  | cons x xs ih =>
+    intro hn hx
+    simp only [List.map_cons, List.nodup_cons] at hn
+    simp only [List.map_cons, List.filter_cons, launchJob]
+    rcases List.mem_cons.1 hx with rfl | hx'
+    · simp only [beq_self_eq_true, if_true]
+      congr 1
+      rw [List.filter_eq_nil_iff]
+      intro j hj
+      obtain ⟨y, hy, rfl⟩ := List.mem_map.1 hj
+      simp only [beq_iff_eq]
+      intro heq
+      exact hn.1 (heq ▸ List.mem_map_of_mem hy)
+    · have hne : (x.id == e.id) = false := by
+        simp only [beq_eq_false_iff_ne]
+        intro heq
+        exact hn.1 (heq ▸ List.mem_map_of_mem hx')
+      simp only [hne, Bool.false_eq_true, if_false]
+      exact ih hn.2 hx'
+
+theorem filter_map_id_none (f : Entry → Rec) (hf : ∀ e, (f e).id = e.id) {id : Nat} {l : List Entry}
+    (h : ∀ x ∈ l, x.id ≠ id) : (l.map f).filter (fun r => r.id == id) = [] := by
+  rw [List.filter_eq_nil_iff]
+  intro r hr
+  obtain ⟨y, hy, rfl⟩ := List.mem_map.1 hr
+  simpa [hf] using h y hy
+
+/-- ids of the entry list plus the entry on its way into it -/
+def liveIds (s : State) : List Nat :=
+  s.entries.map (·.id) ++ (match s.pc with
+    | .refresh (some (id, _)) => [id]
+    | _ => [])
+
+/-- the effect of one API call on (last issued id, live ids), as documented: `Schedule` issues the
+next id and makes it live, `Remove(id)` makes `id` not live, nothing else changes them -/
+def specStep (p : Nat × List Nat) : Label → Nat × List Nat
+  | .add _ => (p.1 + 1, p.2 ++ [p.1 + 1])
+  | .remove id => (p.1, p.2.filter (· ≠ id))
+  | _ => p
+
+/-- (last issued id, issued − removed) after a history -/
+def specLive (h : List Label) : Nat × List Nat := h.foldl specStep (0, [])
+
+theorem specStep_perm {n : Nat} {a b : List Nat} (hp : a.Perm b) (l : Label) :
+    (specStep (n, a) l).1 = (specStep (n, b) l).1 ∧ (specStep (n, a) l).2.Perm (specStep (n, b) l).2 := by
+  cases l <;> simp only [specStep] <;> first
+    | exact ⟨trivial, hp⟩
+    | exact ⟨trivial, hp.append_right _⟩
+    | exact ⟨trivial, hp.filter _⟩
+    | exact ⟨rfl, hp⟩
+    | exact ⟨rfl, hp.append_right _⟩
+    | exact ⟨rfl, hp.filter _⟩
+
+theorem live_step {S : Scheds} {s s' : State} {l : Label} (hA : InvA s) (h : step S s l = some s') :
+    s'.nextID = (specStep (s.nextID, liveIds s) l).1 ∧
+    (liveIds s').Perm (specStep (s.nextID, liveIds s) l).2 := by
+  have hoff : s.running = false → s.pc = .off := by
+    intro hr; have := hA.run_pc; simp [hr] at this; exact this
+  cases l with
+  | add sid =>
+    rcases step_add_inv h with ⟨_, hp, rfl⟩ | ⟨hr, rfl⟩
+    · obtain ⟨tm, hpc⟩ := isParked_iff.1 hp
+      simp [specStep, liveIds, hpc]
+    · simp [specStep, liveIds, hoff hr]
+  | remove id =>
+    rcases step_remove_inv h with ⟨_, hp, rfl⟩ | ⟨hr, rfl⟩
+    · obtain ⟨tm, hpc⟩ := isParked_iff.1 hp
+      simp only [specStep, liveIds, hpc, List.append_nil]
+      refine ⟨trivial, ?_⟩
+      rw [List.filter_map]
+      exact List.Perm.refl _ |>.trans (by simp [Function.comp_def])
+    · simp only [specStep, liveIds, hoff hr, List.append_nil]
+      refine ⟨trivial, ?_⟩
+      rw [List.filter_map]
+      exact List.Perm.refl _ |>.trans (by simp [Function.comp_def])
+  | snapshot => obtain ⟨rfl, _⟩ := step_snapshot_inv h; exact ⟨rfl, List.Perm.refl _⟩
+  | start =>
+    rcases step_start_inv h with ⟨_, rfl⟩ | ⟨hr, rfl⟩
+    · exact ⟨rfl, List.Perm.refl _⟩
+    · simp [specStep, liveIds, hoff hr]
+  | stop =>
+    rcases step_stop_inv h with ⟨_, hp, rfl⟩ | ⟨_, rfl⟩
+    · obtain ⟨tm, hpc⟩ := isParked_iff.1 hp
+      simp [specStep, liveIds, hpc]
+    · exact ⟨rfl, List.Perm.refl _⟩
+  | advance t =>
+    obtain ⟨_, ⟨tm, hpc, rfl⟩ | ⟨_, rfl⟩⟩ := step_advance_inv h
+    · simp [specStep, liveIds, hpc]
+    · exact ⟨rfl, List.Perm.refl _⟩
+  | boot =>
+    obtain ⟨hpc, rfl⟩ := step_boot_inv h
+    simp [specStep, liveIds, hpc, Function.comp_def]
+  | refresh =>
+    rcases step_refresh_inv h with ⟨hpc, rfl⟩ | ⟨id, sid, hpc, rfl⟩
+    · simp [specStep, liveIds, hpc]
+    · simp [specStep, liveIds, hpc]
+  | arm =>
+    obtain ⟨hpc, rfl⟩ := step_arm_inv h
+    simp only [specStep, liveIds, hpc, List.append_nil]
+    exact ⟨trivial, (sortBT_perm s.entries).map _⟩
+  | wake =>
+    obtain ⟨tm, v, hpc, _, rfl⟩ := step_wake_inv h
+    simp only [specStep, liveIds, hpc, List.append_nil]
+    refine ⟨trivial, ?_⟩
+    rw [wakeLoop_ids]
+  | jobBegin i => obtain ⟨_, _, _, rfl⟩ := step_jobBegin_inv h; exact ⟨rfl, List.Perm.refl _⟩
+  | jobDone i => obtain ⟨_, _, _, _, rfl⟩ := step_jobDone_inv h; exact ⟨rfl, List.Perm.refl _⟩
+  | ctxWait k => obtain ⟨_, rfl⟩ := step_ctxWait_inv h; exact ⟨rfl, List.Perm.refl _⟩
+
+theorem live_runFrom {S : Scheds} (h : List Label) :
+    ∀ {s s' : State} {ids : List Nat}, Reach S s → (liveIds s).Perm ids → runFrom S s h = some s' →
+      s'.nextID = (h.foldl specStep (s.nextID, ids)).1 ∧
+      (liveIds s').Perm (h.foldl specStep (s.nextID, ids)).2 := by
+  induction h with
+  | nil => intro s s' ids _ hp hr; simp [runFrom] at hr; subst hr; exact ⟨rfl, hp⟩
+  | cons l ls ih =>
+    intro s s' ids hreach hp hr
+    simp only [runFrom] at hr
+    cases hl : step S s l with
+    | none => simp [hl] at hr
+    | some s1 =>
+      rw [hl] at hr
+      obtain ⟨h1, h2⟩ := live_step (reach_invA hreach) hl
+      obtain ⟨h3, h4⟩ := specStep_perm hp l
+      have := ih (Reach.step l hreach hl) (h2.trans h4) hr
+      simp only [List.foldl_cons]
+      have heq : specStep (s.nextID, ids) l = (s1.nextID, (specStep (s.nextID, ids) l).2) := by
+        rw [h1, h3]
+      rw [heq]
+      exact this
+
+end Kit.CronSched
